@@ -75,9 +75,73 @@ def _lattice_cfgs():
   ]
 
 
+_UNIT_SEARCH = """
+import numpy as np
+cfg = args[0]
+t, U, kw = cfg['target'], cfg['units'], dict(cfg['kw'])
+tup = lambda xs: [tuple(x) for x in xs] if xs else None
+if t == 'lattice_constraints':
+  ly = mod('lattice_layer')
+  for k in ('edgeworth_trusts', 'trapezoid_trusts', 'monotonic_dominances', 'range_dominances', 'joint_monotonicities'):
+    if kw.get(k):
+      kw[k] = tup(kw[k])
+  rows = int(np.prod(kw['lattice_sizes']))
+  cons = ly.LatticeConstraints(num_projection_iterations=cfg.get('iters', 1), enforce_strict_monotonicity=cfg.get('strict', True), **kw)
+elif t == 'pwl_constraints':
+  ly = mod('pwl_calibration_layer'); lib = mod('pwl_calibration_lib')
+  omin, omax, omc, oxc = lib.convert_all_constraints(kw.get('output_min'), kw.get('output_max'), kw.get('clamp_min', False),
+                                                     kw.get('clamp_max', False))
+  rows = len(kw['lengths']) + 1
+  cons = ly.PWLCalibrationConstraints(monotonicity=kw['monotonicity'], convexity=kw.get('convexity', 0),
+                                      lengths=tf.constant(kw['lengths'], 'float32'), output_min=omin, output_max=omax,
+                                      output_min_constraints=omc, output_max_constraints=oxc,
+                                      num_projection_iterations=cfg.get('iters', 2))
+elif t == 'categorical_constraints':
+  ly = mod('categorical_calibration_layer')
+  rows = kw['n']
+  cons = ly.CategoricalCalibrationConstraints(output_min=kw.get('output_min'), output_max=kw.get('output_max'),
+                                              monotonicities=[list(p) for p in kw.get('pairs') or []] or None)
+else:
+  ly = mod('linear_layer')
+  rows = len(kw['monos'])
+  cons = ly.LinearConstraints(monotonicities=kw['monos'], monotonic_dominances=tup(kw.get('mono_dom')),
+                              range_dominances=tup(kw.get('range_dom')), input_min=kw.get('input_min'),
+                              input_max=kw.get('input_max'), normalization_order=kw.get('norm'))
+rng = np.random.RandomState(9)
+worst = None
+for trial in range(80):
+  scale = [0.3, 1.0, 3.0, 10.0][trial % 4]
+  w = (scale * rng.standard_normal((rows, U))).astype('float32')
+  if trial % 5 == 0:
+    w[0, rng.randint(U)] = rng.choice([-5.0, 0.0, 1.0, 2.0, 5.0])      # one unit at / beyond a typical bound
+  full = cons(tf.constant(w)).numpy()
+  for u in range(U):
+    alone = cons(tf.constant(w[:, u:u + 1])).numpy()
+    err = float(np.max(np.abs(full[:, u:u + 1] - alone)))
+    if err > 1e-5 and (worst is None or err > worst['difference']):
+      worst = {'difference': err, 'unit': u, 'kernel': w.tolist(), 'with_other_units': full[:, u].tolist(),
+               'alone': alone[:, 0].tolist()}
+result = worst
+"""
+
+
 class UnitCase(Case):
   contract_key = None
   xcheck = False
+
+  def replay_desc(self, cfg, model, g):
+    if cfg.get('target') in ('lattice_constraints', 'pwl_constraints', 'categorical_constraints', 'linear_constraints'):
+      return {'kind': 'script', 'code': _UNIT_SEARCH, 'floatx': 'float32', 'args': [cfg], 'kwargs': {}}
+    return None
+
+  def replay_eval(self, cfg, model, g, desc, nat):
+    failing = []
+    if 'error' in nat:
+      return {'native': {k: v for k, v in nat.items() if k != 'trace'}, 'failing': [], 'note': 'native search could not run'}
+    if nat.get('ok'):
+      failing.append('column %d of constraint(kernel) differs from constraint(column alone) by %g' %
+                     (nat['ok']['unit'], nat['ok']['difference']))
+    return {'native': nat, 'failing': failing, 'note': 'bounded native search: 80 random kernels'}
 
   def loop_mode(self, cfg):
     return ('unroll',)
